@@ -46,6 +46,16 @@ def hand_instances():
         [I("DUP2"), I("MSTORE"), I("DUP1"), I("MSTORE")],
         [I("MLOAD"), I("MLOAD")],
         [P(1), I("DUP1"), I("ADD"), I("DUP1"), I("MUL")],
+        # the operands of the LATER operation are already on top of the initial stack, so the forbidden order is the
+        # cheap one (a missing ordering constraint shows as a model that runs the later operation first)
+        [I("SWAP2"), I("MLOAD"), I("SWAP2"), I("MSTORE")],
+        [I("SWAP2"), I("SLOAD"), I("SWAP2"), I("SSTORE")],
+        [I("SWAP2"), I("SWAP1"), I("SWAP3"), I("SWAP1"), I("MSTORE"), I("MSTORE")],
+        [I("SWAP2"), I("SWAP1"), I("SWAP3"), I("SWAP1"), I("SSTORE"), I("SSTORE")],
+        [I("SWAP2"), I("SWAP1"), I("MSTORE"), I("MLOAD")],
+        [I("SWAP2"), I("SWAP1"), I("SSTORE"), I("SLOAD")],
+        [I("SWAP3"), I("SWAP1"), I("SWAP2"), I("MSTORE"), P(32), I("SWAP1"), I("KECCAK256")],
+        [I("SWAP1"), I("DUP1"), I("MLOAD"), I("SWAP2"), I("SWAP1"), I("MSTORE8")],
     ]
 
 
@@ -209,13 +219,16 @@ def main(tier, seed, only=None):
         elif value["multi"] and tot["multi"] % 500 == 1:
             chk.sample({"block": B.to_text(unit[0]), "config": list(cfg), "projected_models": value["projections"]})
 
-    units = [(b, limits) for b in blocks]
+    nh = len(hand_instances())
+    units = [(b, limits) for b in blocks[:-nh]] + [(b, dict(limits, b0=6, bs=5, nodes=150000)) for b in blocks[-nh:]]
     tasks = []
     for cfg in cfgs:
         us = units
         if "-empty" in cfg:
             # without occupancy flags the enumerator has to branch on every cell: keep these instances tiny
             us = [(b, dict(limits, b0=2, nodes=6000)) for b in blocks]
+        elif False:
+            pass
         for ch in pool.chunks(us, max(60, len(us) // 8 + 1)):
             tasks.append((cfg, ch))
     pool.run_tasks(tasks, work, setup=setup, unit_timeout=60, on_result=on_r)
